@@ -342,7 +342,7 @@ CHECKS["C14"] = dict(
         dict(name="tsan", harness="tsan", workers=2, args=["--mode", "threads", "--n", "400"], timeout=10800),
     ],
     rule="interleave: rapidcheck generates 2-3 call histories (open with rate/emulator/chips, notes, controllers, programs with LFO-sensitive instruments, audio calls, emulator/chip-count/"
-         "chip-type/LFO/PCM-rate changes, reset, bank reload, SysEx, song load+play; interferers may open/close repeatedly, every emulator id in both roles) and an interleaving; the observed "
+         "chip-type/LFO/PCM-rate changes, reset, bank reload, SysEx, SMF song load+play, DMX MUS song load (key-on with or without a volume byte); interferers may open/close repeatedly, every emulator id in both roles) and an interleaving; the observed "
          "instance's PCM and tapped register stream must be bit-identical when run alone, alone again, and interleaved. threads: 2-8 histories on concurrently started threads, each compared "
          "with its solo run; the same under ThreadSanitizer must produce no report. heapfill: one history rendered in three child processes whose allocator fills fresh memory with 0x00, "
          "0x5A, 0xFF must give identical hashes. Non-trivial = non-silent audio and (interleave) an interferer was created/reset/switched between two audio calls of the observed instance; "
@@ -367,7 +367,7 @@ CHECKS["C07"] = dict(
            dict(name="audio", harness="pbt", workers=8, args=["--mode", "audio", "--n", "100"])],
     thorough=[dict(name="tick", harness="pbt", workers=16, args=["--n", "60000"], timeout=10800),
               dict(name="audio", harness="pbt", workers=16, args=["--mode", "audio", "--n", "2500"], timeout=10800)],
-    rule="rapidcheck SMF structures: format 0/1, 1-8 tracks (track k on channels 2k,2k+1), divisions {1,24,96,192,480,960,32767,random}, deltas 0 / small / multi-byte VLQ / up to 2M ticks, "
+    rule="rapidcheck SMF structures: format 0/1, 1-8 tracks (track k on channels 2k,2k+1; or, in 1 of 4 multi-track songs, every track on channels 0/1 with the same three keys and the track number carried in the last data byte), divisions {1,24,96,192,480,960,32767,random}, deltas 0 / small / multi-byte VLQ / up to 2M ticks, "
          "note on/off (velocity 0 too), controllers, program, bend, channel and key pressure with and without running status, SysEx F0 and F7, text/marker/sequencer-specific metas carrying "
          "(track,serial) stamps, tempo/time-signature/key/SMPTE/channel-prefix metas in track 0, End-of-Track alone at its tick or not; tempo multipliers {0.25,0.5,1,1.5,4,random}; "
          "track off/solo and channel masks; tick-driven (three step policies, three granularities) or audio-driven (request sizes 2..70000). An independent interpreter of the generated "
@@ -392,11 +392,14 @@ CHECKS["C08"] = dict(
     harnesses={"pbt": dict(src="c08_seek.cpp", cfg="asan", kind="rc")},
     quick=[dict(name="pbt", harness="pbt", workers=8, args=["--n", "4000"])],
     thorough=[dict(name="pbt", harness="pbt", workers=16, args=["--n", "40000"], timeout=10800)],
-    rule="rapidcheck: generated SMF (as C07, plus RPN/NRPN data entry, pedals, portamento, reset-all-controllers) and a history: play to 0/30/60/95/100 % of the song, then 1-4 seeks to "
-         "targets strictly between distinct event times (forward and backward), negative targets and targets beyond the end. Instance A seeks; twin B rewinds and plays linearly to the same "
-         "time. After each seek: reported position == target, no note sounding (pending 30 ms percussion releases excepted), 21 per-channel controller fields + synth mode + master volume "
-         "equal the twin's; afterwards both are played to the end and the raw-event streams (identity and song time) must be equal, and equal to the reference interpreter's list of file "
-         "events later than the target. Non-trivial = a target inside the song with notes sounding at the moment of the seek; distinct by FNV-64 of the case.",
+    rule="rapidcheck: generated SMF (as C07, plus RPN/NRPN data entry, pedals, portamento, reset-all-controllers; device-name metas FF 09 with three port names in any track) and a history: "
+         "play to 0/30/60/95/100 % of the song, then 1-4 seeks to targets strictly between distinct event times (forward and backward), negative targets and targets beyond the end. Looping is off, "
+         "or on with the whole song as the loop or with loopStart/loopEnd markers inserted into track 0 (targets then stay before the loop end). Instance A seeks; twin B is a freshly loaded "
+         "instance (every second seek with looping off: the same twin rewound) played linearly to the same time. After each seek: reported position == target, no note sounding (pending 30 ms "
+         "percussion releases excepted), 21 per-channel controller fields + synth mode + master volume equal the twin's (channels of a port the seeking instance met before the seek and linear "
+         "playback has not reached yet must be in the state of a new channel); afterwards both are played to the end (looping: to the loop end and through two more rounds) and the raw-event "
+         "streams (identity and song time) must be equal, and (looping off) equal to the reference interpreter's list of file events later than the target. "
+         "Non-trivial = a target inside the song with notes sounding at the moment of the seek; distinct by FNV-64 of the case.",
     assumptions=[
         "looping is off; targets closer than 2 us to an event time are skipped (the statement says 'between event times')",
         "the twin executes the same history (statement: seeking equals playing linearly from the start), so programs/banks that a controller-state reset does not touch are compared like everything else",
